@@ -11,7 +11,7 @@ mkdir -p $VERIF_WORK
 echo "| seeded change | property | check exit | verdict | first reported failing input |" > $OUT.tmp; echo "|---|---|---|---|---|" >> $OUT.tmp
 for d in seeded/*/; do
   id=$(basename $d); [ -f $d/patch.diff ] || continue
-  [ -n "$ONLY" ] && ! echo "$id" | grep -qE "$ONLY" && continue
+  [ -n "$ONLY" ] && ! echo "$id" | grep -qE -- "$ONLY" && continue
   case $id in benign-*) continue;; esac
   prop=$(python3 -c "import json;print(json.load(open('$d/meta.json'))['property'])")
   git -C /repo worktree remove --force $WT 2>/dev/null; rm -rf $WT
